@@ -39,7 +39,8 @@ Proof.
   intros st id b. unfold commit, finish.
   cbn [csets find]. rewrite N.eqb_refl.
   cbn [c_overlay c_base c_result view fold_right cur hist max_len seqn marker negb].
-  rewrite kv_eqb_refl. cbn [negb].
+  rewrite kv_eqb_refl. unfold stale_count.
+  cbn [c_parent c_seqn hd_error seqn negb orb]. rewrite N.eqb_refl. cbn [negb].
   eexists. reflexivity.
 Qed.
 
@@ -154,12 +155,238 @@ Proof.
   - match type of Hc with (if negb ?p then _ else _) = _ => destruct p end; cbn [negb] in Hc.
     + destruct busy.
       * apply (Hsame CDeferred); [discriminate|exact Hc].
-      * destruct (kv_eqb (cur st) (c_base c)); cbn [negb] in Hc.
-        -- inversion Hc; subst r. contradiction Hr. reflexivity.
+      * destruct (negb (kv_eqb (cur st) (c_base c)) || stale_count st c).
         -- apply (Hdrop CStale); [discriminate|exact Hc].
+        -- inversion Hc; subst r. contradiction Hr. reflexivity.
     + apply (Hdrop CParent); [discriminate|exact Hc].
   - apply (Hsame CUnknown); [discriminate|exact Hc].
 Qed.
+
+(* ---------- C12: the acceptance rule, exactly; ABA ---------- *)
+
+(* which answer a (blocking) commit gives is decided by the state: once the parent check has passed,
+   the commit succeeds exactly when the committed state is the change set's base AND - for a change
+   set without a parent overlay - no commit or rollback has happened since its session was taken *)
+Theorem commit_accept_iff : forall st id c,
+  find (csets st) id = Some c -> c_parent c = None ->
+  (snd (commit st id false) = COk <-> (cur st = c_base c /\ seqn st = c_seqn c)) /\
+  (snd (commit st id false) = CStale <-> ~ (cur st = c_base c /\ seqn st = c_seqn c)).
+Proof.
+  intros st id c Hf Hp. unfold commit. rewrite Hf, Hp.
+  assert (Hpo : (if c_overlay c then true else true) = true) by (destruct (c_overlay c); reflexivity).
+  rewrite Hpo. cbn [negb]. unfold stale_count. rewrite Hp.
+  assert (Hiff : negb (kv_eqb (cur st) (c_base c)) || negb (N.eqb (seqn st) (c_seqn c)) = false <->
+                 cur st = c_base c /\ seqn st = c_seqn c).
+  { rewrite orb_false_iff, !negb_false_iff, kv_eqb_true_iff, N.eqb_eq. reflexivity. }
+  destruct (negb (kv_eqb (cur st) (c_base c)) || negb (N.eqb (seqn st) (c_seqn c))) eqn:E;
+    cbn [snd]; split; split; intros H; try discriminate; try reflexivity.
+  - apply Hiff in H. discriminate.
+  - intros H'. apply Hiff in H'. discriminate.
+  - apply Hiff. reflexivity.
+  - exfalso. apply H. apply Hiff. reflexivity.
+Qed.
+
+(* everything a user of the store can do *)
+Inductive op :=
+| OFinish (j : N) (m : list N) (b : list (key * option (option value)))
+| OOverlay (j : N)
+| ODrop (j : N)
+| OCommit (j : N) (busy : bool)
+| ORollback (n : nat).
+
+Definition step (st : state) (o : op) : state :=
+  match o with
+  | OFinish j m b => finish st j m b
+  | OOverlay j => into_overlay st j
+  | ODrop j => drop st j
+  | OCommit j busy => fst (commit st j busy)
+  | ORollback n => fst (rollback st n)
+  end.
+
+Fixpoint run_ops (st : state) (ops : list op) : state :=
+  match ops with
+  | [] => st
+  | o :: ops' => run_ops (step st o) ops'
+  end.
+
+(* the operation is a successful commit, or a successful rollback of at least one commit *)
+Definition moves (st : state) (o : op) : bool :=
+  match o with
+  | OCommit j busy => match snd (commit st j busy) with COk => true | _ => false end
+  | ORollback (S n) => match snd (rollback st (S n)) with ROk => true | _ => false end
+  | _ => false
+  end.
+
+(* some operation of the sequence, run from [st], is one *)
+Fixpoint moved (st : state) (ops : list op) : bool :=
+  match ops with
+  | [] => false
+  | o :: ops' => moves st o || moved (step st o) ops'
+  end.
+
+(* no later session is given the identifier [id] (identifiers name objects: they are not reused) *)
+Definition no_reuse (id : N) (ops : list op) : bool :=
+  forallb (fun o => match o with OFinish j _ _ => negb (N.eqb j id) | _ => true end) ops.
+
+Lemma find_update_keeps : forall (f : cset -> cset),
+  (forall c, c_parent (f c) = c_parent c /\ c_seqn (f c) = c_seqn c) ->
+  forall cs j id c, find cs id = Some c ->
+  exists c', find (update cs j f) id = Some c' /\ c_parent c' = c_parent c /\ c_seqn c' = c_seqn c.
+Proof.
+  intros f Hf. induction cs as [|[i c0] cs IH]; intros j id c H.
+  - discriminate.
+  - cbn [update]. cbn [find] in H. destruct (N.eqb i j) eqn:Ej.
+    + cbn [find]. destruct (N.eqb i id) eqn:Ei.
+      * injection H as <-. exists (f c0). split; [reflexivity|]. apply Hf.
+      * exists c. repeat split; [exact H].
+    + cbn [find]. destruct (N.eqb i id) eqn:Ei.
+      * injection H as <-. exists c0. repeat split; reflexivity.
+      * apply IH. exact H.
+Qed.
+
+Lemma set_status_keeps : forall s h c,
+  c_parent (set_status s h c) = c_parent c /\ c_seqn (set_status s h c) = c_seqn c.
+Proof. intros s h c. split; reflexivity. Qed.
+
+Lemma drop_keeps : forall st j id c, find (csets st) id = Some c ->
+  exists c', find (csets (drop st j)) id = Some c' /\ c_parent c' = c_parent c /\ c_seqn c' = c_seqn c.
+Proof.
+  intros st j id c H. unfold drop, with_csets. cbn [csets].
+  apply find_update_keeps; [|exact H].
+  intros c0. destruct (c_status c0); apply set_status_keeps.
+Qed.
+
+(* one operation: the change set [id] keeps its parent and its count, the store's count does not go
+   back, and it advances when the operation is a successful commit or rollback *)
+Lemma step_keeps : forall st o id c,
+  find (csets st) id = Some c -> no_reuse id [o] = true ->
+  exists c', find (csets (step st o)) id = Some c' /\ c_parent c' = c_parent c /\ c_seqn c' = c_seqn c /\
+    (seqn st <= seqn (step st o))%N /\ (moves st o = true -> (seqn st < seqn (step st o))%N).
+Proof.
+  intros st o id c Hf Hnr.
+  assert (Hsame : forall st', csets st' = csets st -> seqn st' = seqn st ->
+            exists c', find (csets st') id = Some c' /\ c_parent c' = c_parent c /\ c_seqn c' = c_seqn c /\
+                       (seqn st <= seqn st')%N).
+  { intros st' Hc Hs. exists c. rewrite Hc, Hs. repeat split; [exact Hf|lia]. }
+  destruct o as [j m b|j|j|j busy|n]; cbn [step moves].
+  - (* finish of another session *)
+    cbn [no_reuse forallb] in Hnr. rewrite andb_true_r in Hnr. apply negb_true_iff in Hnr.
+    exists c. unfold finish. cbn [csets find seqn]. rewrite Hnr.
+    repeat split; [exact Hf|lia|discriminate].
+  - (* into_overlay *)
+    unfold into_overlay, with_csets. cbn [csets seqn].
+    destruct (find_update_keeps set_overlay (fun c0 => conj eq_refl eq_refl) (csets st) j id c Hf)
+      as (c' & H1 & H2 & H3).
+    exists c'. repeat split; try assumption; [lia|discriminate].
+  - (* drop *)
+    destruct (drop_keeps st j id c Hf) as (c' & H1 & H2 & H3).
+    exists c'. repeat split; try assumption; [unfold drop, with_csets; cbn [seqn]; lia|discriminate].
+  - (* commit *)
+    unfold commit.
+    destruct (find (csets st) j) as [cj|]; cbn [fst snd].
+    + match goal with |- context [if negb ?p then _ else _] => destruct p end; cbn [negb fst snd].
+      * destruct busy; cbn [fst snd].
+        -- exists c. repeat split; [exact Hf|lia|discriminate].
+        -- destruct (negb (kv_eqb (cur st) (c_base cj)) || stale_count st cj); cbn [fst snd].
+           ++ destruct (drop_keeps st j id c Hf) as (c' & H1 & H2 & H3).
+              exists c'. repeat split; try assumption;
+                [unfold drop, with_csets; cbn [seqn]; lia|discriminate].
+           ++ cbn [csets seqn].
+              destruct (find_update_keeps (set_status Committed false) (set_status_keeps Committed false)
+                          (csets st) j id c Hf) as (c' & H1 & H2 & H3).
+              exists c'. repeat split; try assumption; lia.
+      * destruct (drop_keeps st j id c Hf) as (c' & H1 & H2 & H3).
+        exists c'. repeat split; try assumption;
+          [unfold drop, with_csets; cbn [seqn]; lia|discriminate].
+    + exists c. repeat split; [exact Hf|lia|discriminate].
+  - (* rollback *)
+    destruct n as [|n].
+    + cbn [rollback fst]. exists c. repeat split; [exact Hf|lia|discriminate].
+    + unfold rollback. destruct (max_len st) as [l|]; cbn [fst snd].
+      * destruct (nth_error (hist st) n) as [snap|]; cbn [fst snd csets seqn].
+        -- exists c. repeat split; [exact Hf|lia|intros _; lia].
+        -- exists c. repeat split; [exact Hf|lia|discriminate].
+      * exists c. repeat split; [exact Hf|lia|discriminate].
+Qed.
+
+Lemma run_ops_keeps : forall ops st id c,
+  find (csets st) id = Some c -> no_reuse id ops = true ->
+  exists c', find (csets (run_ops st ops)) id = Some c' /\ c_parent c' = c_parent c /\
+    c_seqn c' = c_seqn c /\
+    (seqn st <= seqn (run_ops st ops))%N /\ (moved st ops = true -> (seqn st < seqn (run_ops st ops))%N).
+Proof.
+  induction ops as [|o ops IH]; intros st id c Hf Hnr.
+  - exists c. cbn [run_ops moved]. repeat split; [exact Hf|lia|discriminate].
+  - cbn [run_ops moved]. cbn [no_reuse forallb] in Hnr. apply andb_true_iff in Hnr.
+    destruct Hnr as [Hn1 Hn2].
+    destruct (step_keeps st o id c Hf) as (c1 & F1 & P1 & S1 & L1 & M1).
+    { cbn [no_reuse forallb]. rewrite Hn1. reflexivity. }
+    destruct (IH (step st o) id c1 F1 Hn2) as (c2 & F2 & P2 & S2 & L2 & M2).
+    exists c2. split; [exact F2|]. split; [congruence|]. split; [congruence|]. split; [lia|].
+    intros Hm. apply orb_true_iff in Hm. destruct Hm as [Hm|Hm].
+    + specialize (M1 Hm). lia.
+    + specialize (M2 Hm). lia.
+Qed.
+
+(* ABA.  A session without a parent overlay is finished in any state; then anything at all is done
+   with the store (other sessions finished, turned into overlays, dropped, committed or refused;
+   rollbacks), among which at least one commit or rollback succeeds.  The first change set is then
+   refused as stale and the refusal changes nothing - whatever the committed state is by then: in
+   particular when it has come back to the change set's base (see [aba_example_*] below). *)
+Theorem aba_rejected : forall st id batch ops,
+  no_reuse id ops = true ->
+  moved (finish st id [] batch) ops = true ->
+  let st1 := run_ops (finish st id [] batch) ops in
+  commit st1 id false = (drop st1 id, CStale) /\
+  cur (drop st1 id) = cur st1 /\ hist (drop st1 id) = hist st1 /\ seqn (drop st1 id) = seqn st1 /\
+  marker (drop st1 id) = marker st1 /\ max_len (drop st1 id) = max_len st1.
+Proof.
+  intros st id batch ops Hnr Hmv st1.
+  split; [|repeat split; reflexivity].
+  set (s0 := finish st id [] batch) in *.
+  assert (Hf : exists c, find (csets s0) id = Some c /\ c_parent c = None /\ c_seqn c = seqn s0).
+  { unfold s0, finish. cbn [csets find seqn]. rewrite N.eqb_refl. eexists. split; [reflexivity|].
+    split; reflexivity. }
+  destruct Hf as (c & Hf & Hp & Hs).
+  destruct (run_ops_keeps ops s0 id c Hf Hnr) as (c' & F & P & S & _ & M).
+  specialize (M Hmv). fold st1 in F, M.
+  unfold commit. rewrite F. rewrite P, Hp.
+  assert (Hpo : (if c_overlay c' then true else true) = true) by (destruct (c_overlay c'); reflexivity).
+  rewrite Hpo. cbn [negb].
+  assert (Hst : stale_count st1 c' = true).
+  { unfold stale_count. rewrite P, Hp. apply negb_true_iff. apply N.eqb_neq. lia. }
+  rewrite Hst, orb_true_r. reflexivity.
+Qed.
+
+(* two such histories in which the committed state does come back to the base of the change set:
+   the old rule (equal states) would have accepted it *)
+
+(* write then delete: 1 is prepared on the empty store; 2 inserts a key, 3 deletes it again *)
+Example aba_example_delete :
+  let k := [true; false] in
+  let s0 := finish (init (Some 4)) 1%N [] [(k, Some (Some 7%N))] in
+  let ops := [OFinish 2%N [] [(k, Some (Some 5%N))]; OCommit 2%N false;
+              OFinish 3%N [] [(k, Some None)]; OCommit 3%N false] in
+  let s1 := run_ops s0 ops in
+  (no_reuse 1%N ops, moved s0 ops, cur s1, option_map c_base (find (csets s1) 1%N),
+   option_map c_seqn (find (csets s1) 1%N), seqn s1,
+   snd (commit s1 1%N false), cur (fst (commit s1 1%N false)), seqn (fst (commit s1 1%N false)),
+   hist (fst (commit s1 1%N false))) =
+  (true, true, [], Some [], Some 0%N, 2%N, CStale, [], 2%N, [[(k, 5%N)]; []]).
+Proof. vm_compute. reflexivity. Qed.
+
+(* commit then rollback *)
+Example aba_example_rollback :
+  let k := [true; false] in
+  let s0 := finish (init (Some 4)) 1%N [] [(k, Some (Some 7%N))] in
+  let ops := [OFinish 2%N [] [(k, Some (Some 5%N))]; OCommit 2%N false; ORollback 1] in
+  let s1 := run_ops s0 ops in
+  (no_reuse 1%N ops, moved s0 ops, cur s1, option_map c_base (find (csets s1) 1%N),
+   option_map c_seqn (find (csets s1) 1%N), seqn s1,
+   snd (commit s1 1%N false), cur (fst (commit s1 1%N false)), seqn (fst (commit s1 1%N false)),
+   hist (fst (commit s1 1%N false))) =
+  (true, true, [], Some [], Some 0%N, 2%N, CStale, [], 2%N, []).
+Proof. vm_compute. reflexivity. Qed.
 
 (* ---------- C09: rollback ---------- *)
 
@@ -367,14 +594,17 @@ Proof.
   unfold commit in E1. subst s2 s1.
   unfold into_overlay, with_csets, finish in E1.
   cbn [csets update find cur hist max_len seqn marker N.eqb Pos.eqb] in E1.
-  cbn [set_overlay c_overlay c_parent c_base negb view fold_right cur] in E1.
-  rewrite kv_eqb_refl in E1. cbn [negb] in E1.
+  unfold stale_count in E1.
+  cbn [set_overlay c_overlay c_parent c_seqn c_base negb view fold_right cur seqn hd_error] in E1.
+  rewrite kv_eqb_refl, N.eqb_refl in E1. cbn [negb orb] in E1.
   inversion E1; subst s3 r1. clear E1.
   unfold commit in E2.
   cbn [csets update find cur hist max_len seqn marker N.eqb Pos.eqb] in E2.
   cbn [set_overlay set_status c_overlay c_parent c_base c_result c_changes negb view fold_right cur
        changes_of csets find N.eqb Pos.eqb hd_error] in E2.
-  rewrite kv_eqb_refl in E2. cbn [negb] in E2.
+  unfold stale_count in E2.
+  cbn [set_overlay set_status c_parent hd_error] in E2.
+  rewrite kv_eqb_refl in E2. cbn [negb orb] in E2.
   inversion E2; subst s4 r2. clear E2.
   cbn [cur hist]. repeat split; reflexivity.
 Qed.
